@@ -1,11 +1,11 @@
 package rules
 
 import (
-	"sort"
 	"fmt"
 	"go/ast"
 	"go/token"
 	"go/types"
+	"sort"
 
 	"asverif/internal/gf"
 	"asverif/internal/load"
@@ -71,11 +71,11 @@ func runC12(c *Ctx) {
 	// adjustments: status.F++ / -- / += d / -= d, in the reconcile function or in a helper expanded into it; in a helper
 	// each occurrence (one per call of the helper) is judged on its own facts, anchored at the call in the function's body
 	type adjustment struct {
-		stmt  ast.Node   // the adjusting statement
-		x     ast.Expr   // status.F
+		stmt  ast.Node // the adjusting statement
+		x     ast.Expr // status.F
 		field string
 		body  *ast.BlockStmt // the body it stands in
-		at    ast.Node   // anchor in the reconcile function's own body (the statement itself, or the call of the helper)
+		at    ast.Node       // anchor in the reconcile function's own body (the statement itself, or the call of the helper)
 		st    gf.State
 		op    string
 		calls []*ast.CallExpr // chain of expanded calls (outermost first) when the statement stands in a helper
@@ -222,6 +222,10 @@ func runC12(c *Ctx) {
 				}
 				c.Check(direct && op == "++", "C12.2-census-total", name, ad.stmt.Pos(), "every observed pod is counted, unconditionally", "the total is not counted unconditionally per observed pod")
 			}
+		}
+		// a census counts up
+		if contains(census, at) {
+			c.Check(op == "++", "C12.2-census-counts-up", name, ad.stmt.Pos(), "an observed pod adds one", "the census takes one off the counter for a pod that has the counted property")
 		}
 		// adjustments outside the census follow a successful pod write
 		if !contains(census, at) {
@@ -501,18 +505,24 @@ func (c *Ctx) currentRevisionChoice() {
 	// name has been seen, the fall-back to the update revision is no longer reachable.
 	type okRet struct {
 		ret      *ast.ReturnStmt
+		curE     ast.Expr
 		cur, upd *gf.Term
 	}
+	shape := c.chooser()
 	var rets []okRet
 	ast.Inspect(fi.Decl.Body, func(n ast.Node) bool {
 		if _, isLit := n.(*ast.FuncLit); isLit {
 			return false
 		}
 		ret, ok := n.(*ast.ReturnStmt)
-		if !ok || len(ret.Results) < 3 || !isNilExpr(info, ret.Results[len(ret.Results)-1]) || isNilExpr(info, ret.Results[0]) {
+		if !ok || shape == nil {
 			return true
 		}
-		rets = append(rets, okRet{ret, fn.Term(ret.Results[0]), fn.Term(ret.Results[1])})
+		curE, updE := shape.results(info, ret)
+		if curE == nil {
+			return true
+		}
+		rets = append(rets, okRet{ret, curE, fn.Term(curE), fn.Term(updE)})
 		return true
 	})
 	c.Floor("C12.3-current-revision-choice", len(rets), 1)
@@ -532,14 +542,14 @@ func (c *Ctx) currentRevisionChoice() {
 	var fallbacks []ast.Node
 	seenVar := map[types.Object]bool{}
 	for i, r := range rets {
-		id, isID := ast.Unparen(r.ret.Results[0]).(*ast.Ident)
+		id, isID := ast.Unparen(r.curE).(*ast.Ident)
 		if r.cur.Key() == r.upd.Key() {
 			fallbacks = append(fallbacks, r.ret)
-			c.OK("C12.3-current-revision-choice", fmt.Sprintf("%s: return[%d] %s", fi.Obj.Name(), i, types.ExprString(r.ret.Results[0])), r.ret.Pos(), "the update revision (nothing found)")
+			c.OK("C12.3-current-revision-choice", fmt.Sprintf("%s: return[%d] %s", fi.Obj.Name(), i, types.ExprString(r.curE)), r.ret.Pos(), "the update revision (nothing found)")
 			continue
 		}
 		if !isID {
-			sites = append(sites, valueSite{r.ret, r.cur, false, r.upd, fmt.Sprintf("%s: return[%d] %s", fi.Obj.Name(), i, types.ExprString(r.ret.Results[0]))})
+			sites = append(sites, valueSite{r.ret, r.cur, false, r.upd, fmt.Sprintf("%s: return[%d] %s", fi.Obj.Name(), i, types.ExprString(r.curE))})
 			continue
 		}
 		v := info.ObjectOf(id)
